@@ -53,6 +53,13 @@ def scanner_library(seed, idx, k=None):
             source += ('\n/**\n * foo_arrays%d:\n * @data: (array %s): bytes\n * @n_used: (%s): used\n * @names: (array %s) (nullable): names\n *\n'
                        ' * Returns: (array %s) (transfer none): numbers\n */\n' % (
                            i, ' '.join(opts), 'out' if 'length=n_used' in ropts and False else 'in', rng.choice(['zero-terminated=1', 'fixed-size=2', 'zero-terminated=1 fixed-size=3']), ropts))
+        # boxed types without a C structure of their own (bare <glib:boxed>) get their constructor and a method through annotations
+        for b in model['boxed']:
+            if b['decl'] == 'none':
+                us = 'foo_' + objgen.uscore(b['name'][3:])
+                header += 'gpointer %s_new (gint a);\nvoid %s_frob (gpointer self, gint a);\n' % (us, us)
+                source += ('\n/**\n * %s_new:\n * @a: a\n *\n * Returns: (type %s) (transfer full): new\n */\n'
+                           '\n/**\n * %s_frob: (method)\n * @self: (type %s): self\n * @a: a\n */\n' % (us, b['name'], us, b['name']))
         kind, lib = 'obj', apigen.library(headers=[('/src/foo.h', header)], sources=[('/src/foo.c', source)], dump=dump, shared_libraries=['libfoo.so.1'])
     else:
         l = c13.gen_library(seed, idx)
@@ -155,6 +162,19 @@ def run_case(case):
         if rng.random() < 0.5:
             gir = mutate_gir(rng, gir)
             kind += '+mut'
+        if rng.random() < 0.5:
+            # the include list in every order, with includes that are also includes of includes (Gio > GObject > GLib)
+            have = re.findall(r'<include name="(\w+)" version="([^"]+)"/>', gir)
+            extra = [x for x in (('Gio', '2.0'), ('GObject', '2.0'), ('GLib', '2.0')) if x not in have]
+            rng.shuffle(extra)
+            want = have + extra[:rng.choice([1, 2, 3])]
+            rng.shuffle(want)
+            if have:
+                first = re.search(r'[ \t]*<include name="\w+" version="[^"]+"/>\n', gir)
+                body = re.sub(r'[ \t]*<include name="\w+" version="[^"]+"/>\n', '', gir)
+                gir = body[:first.start()] + ''.join('  <include name="%s" version="%s"/>\n' % x for x in want) + body[first.start():]
+                kind += '+inc'
+                hits['include_list_permuted'] += 1
         name = 'Foo-1.0.gir'
         incdirs = [stub]
     else:
